@@ -83,6 +83,9 @@ class Prop(core.Prop):
         for nt in (1, 2, 3):
             for nlev in (1, 2):
                 yield {'part': 'file', 'nt': nt, 'nlev': nlev}
+        # three upper levels, the second variable on the first and the third only
+        for nt in (1, 2):
+            yield {'part': 'file', 'nt': nt, 'nlev': 3, 'gap': True}
         # two files mapped one after the other in the same process: the second is laid out as the SECOND prescribes
         for a in range(len(MAPFILES)):
             for b in range(len(MAPFILES)):
@@ -117,6 +120,9 @@ class Prop(core.Prop):
             for step in (0.5, -0.5, 0.25, -0.25, 1.0, -1.0, 2. ** 15, -(2. ** 15), 0.1, -0.1, 1e-3):
                 for shape in ([1, 64], [3, 3], [4, 16]):
                     yield {'part': 'special', 'kind': 'ramp', 'v': step, 'shape': shape}
+        elif group.get('gap'):
+            yield dict(group, nsfc=1, nup=2, pattern='ramp', levvars=True)
+            yield dict(group, nsfc=2, nup=2, pattern='wave', levvars=True)
         elif group.get('big'):
             yield dict(group, nsfc=1, nup=1, pattern='ramp')
             yield dict(group, nsfc=2, nup=1, pattern='wave')
@@ -285,7 +291,7 @@ class Prop(core.Prop):
         times = [(95, 12, 31, 12), (96, 1, 1, 0), (96, 1, 2, 12)][:nt]
         sfcn = ['PRSS', 'T02M'][:nsfc]
         upn = ['TEMP', 'UWND'][:nup]
-        levels = [0.99825, 20.125][:nlev]      # all six characters of the level field are significant
+        levels = [0.99825, 20.125, 50.5][:nlev]      # all six characters of the level field are significant
         if case.get('lowlevels'):
             levels = [0.05, 0.025][:nlev]
         rec = dict(nx=nx, ny=ny, times=times, sfclevel=1.0, levels=levels,
@@ -293,7 +299,7 @@ class Prop(core.Prop):
                    upper={n: [[field(100. * (k + 1) + 10 * li + ti, ti) for li in range(nlev)] for ti in range(nt)]
                           for k, n in enumerate(upn)})
         if case.get('levvars'):
-            rec['level_names'] = [[upn[0]], list(upn)]
+            rec['level_names'] = [[upn[0]], list(upn)] if nlev == 2 else [list(upn), [upn[0]], list(upn)]
         raw = rarl.encode_file(rec)
         path = os.path.join(self.tmp, 'arl_%d.bin' % os.getpid())
         with open(path, 'wb') as fh:
